@@ -10,7 +10,7 @@ RULE = ("generated interface family (1..3 target namespaces, nested sequence/cho
         "extension chains across namespaces, element refs, qualified/unqualified forms, recursive members; every "
         "fifth interface rpc/encoded with section-5 arrays) x every operation (wrapped, bare, rpc/literal, "
         "rpc/encoded) x schema-conforming argument trees (builtin leaves of 8 XSD types, None, lists 0..3, nested "
-        "objects, derived-type substitutions, attributes) passed both as dicts and as factory objects; the bytes "
+        "objects, derived-type substitutions, attributes) passed as keyword dicts, as factory objects and by position; the bytes "
         "handed to the transport are read by an independent expat-based infoset reader and matched against the "
         "reference translator (iface.spec_request) and against the Lean marshaller model; non-trivial = every "
         "(interface, operation, arguments, passing mode); distinct = distinct of those")
@@ -45,7 +45,7 @@ def run(ctx):
                 args = K.args_of(ident, I, op, case)
                 for v in args.values():
                     K.value_stats(ctx, v)
-                for mode in ("dict", "object"):
+                for mode in ("dict", "object", "positional"):
                     meta = {"iface": ident, "rendering": rident, "op": op["name"], "case": case, "mode": mode}
                     ctx.case(common.canon(meta), True)
                     ctx.dist["style=" + op["style"]] += 1
